@@ -29,7 +29,7 @@ CONSTANTS
   MaxRich <- Unlimited
   NCmtCls = 2
   NCppForms = 2
-  NGarb = 7
+  NGarb = 8
   DirectiveCls <- DirCls
 INVARIANT WellNested
 INVARIANT GrammarInNest
